@@ -359,6 +359,7 @@ pub fn run(tier: Tier) -> i32 {
         Value::Object(bounds),
         vec![
             "rayon's splitting and collect order are trusted (library); the schedule-independent multiset oracle covers CompassApp::run's glue at every parallelism value".into(),
+            crate::engine::scan_shared_state(),
             "the shared prediction cache scenario uses a key precision fine enough that distinct inputs never share a bucket (coarser precision makes results order dependent by design)".into(),
             "timestamps, run times and memory figures are projected away; hash-map ordered objects are compared order-insensitively".into(),
         ],
